@@ -9,8 +9,12 @@ CHECKS = [
   "text": "For every curve of N=6 symbolic samples (layouts 4+2, 3+3; thorough adds 5+3, 6+0 and all five models), every range [a,b], weighting distance, correction factor k>0 and initial values, z3 shows on every path of the real fit_model/IndentationFitter/residual/model_func chain that fit, residuals, chi-square, fit range, xmin/xmax, reported contact point and the success flag satisfy the stated mutual-consistency relations; the optimiser is an arbitrary-value contract stub. Counterexamples are replayed on the real code with lmfit.minimize patched to return the model's values.",
   "note": "reals not doubles; lmfit.minimize contract stub (vary/bounds/expr honoured by assumption); obj2bytes token; absolute ranges only (relative/plateau: C05, C11); N<=8",
   "technique": SYMX},
+ {"id": "C05", "level": "other",
+  "text": "For every curve of N=6 (plateau search: 12) symbolic samples, every interval [a,b] in any order incl. a==b and bounds equal to samples, and every per-pass optimiser output, z3 shows that each pass of the real fit()/_fit()/compute_emodulus_vs_mindelta selects exactly the specified closed-interval point set of the requested segment and hands the optimiser k*x on it; relative-cp passes are anchored at the previously reported contact point, the plateau scan grid/optimum/final bound relations hold and the fitter's range attributes are restored.",
+  "note": "lmfit.minimize and scipy.signal.filtfilt are contract stubs (arbitrary values); reals; N<=6 (12-14 plateau), num_samples<=3; optimiser convergence outside",
+  "technique": SYMX},
 ]
 _PENDING = "check not built yet in this round (planned in DESIGN.md section 4)"
 NOT_APPLICABLE = [
  {"property_id": "C01", "reason": "recovery of generating parameters is a statement about MINPACK/Nelder-Mead convergence (iterative compiled floating point, data-dependent trip count, noise): not encodable for a solver; stubbing the optimiser would assume the conclusion. Optimiser-independent parts are decided under C04/C05/C11/C13."},
-] + [{"property_id": f"C{i:02d}", "reason": _PENDING} for i in range(3, 21) if i not in (4,)]
+] + [{"property_id": f"C{i:02d}", "reason": _PENDING} for i in range(3, 21) if i not in (4, 5)]
